@@ -28,7 +28,8 @@ def unit(f):
                             ensures=f"""match r {{ Ok(v) => bytes_val(bytes@) < {P} && v.val() == bytes_val(bytes@),
                                        Err(e) => bytes_val(bytes@) >= {P} && e == EncodingError::InvalidEncoding }}""",
                             preamble=bu + " broadcast use lemma_bytes_inj;",
-                            subst=[("R6", r'\s*==\s*\*bytes\b', '.arr_eq(bytes)')]))
+                            subst=[("R6", r'\s*==\s*\*bytes\b', '.arr_eq(bytes)'),
+                                   ("R6", r'(?<![\w.)])((?:\w+\.)*\w+\(\))\s*!=\s*\*bytes\b', r'!\1.arr_eq(bytes)')]))
     I(main, f"impl {F}", Fn("to_bytes", ensures="bytes_val(r@) == self.val()", props=("C11",), preamble=bu))
     # reduction of byte strings of ANY length (Horner over N_8-byte chunks, last chunk first); R25 desugars the chain
     W_ = pow(2, 8 * n8, fp["P"])
